@@ -241,6 +241,13 @@ bool File::copy(const String& src, const String& destination, bool failIfExists)
     int fd = ::open(src, O_RDONLY);
     if(fd == -1)
       return false;
+    struct stat buf;
+    if(fstat(fd, &buf) == 0 && S_ISDIR(buf.st_mode))
+    { // fail before the destination is created or truncated (it may be a dangling link, whose target could not be removed again)
+      ::close(fd);
+      errno = EISDIR;
+      return false;
+    }
     off64_t size = lseek(fd, 0, SEEK_END);
     if(size < 0)
       return false;
